@@ -55,6 +55,10 @@ def configs(tier, seed):
                      script=[['enqueue', 0], ['announce', 0], ['announce', 0]]))
     cfgs.append(dict(backend='dict', backoff='r0x2', n=2, messages=0, prestored=1, harness_wait=True, d=2 if q else 3, dd=2, menu=MENU,
                      script=[['announce', 0], ['flush'], ['announce', 0]]))
+    cfgs.append(dict(backend='dict', backoff='r10', n=2, messages=0, prestored=1, harness_wait=True, slow_ops=['get'], d=3, dd=1, menu=MENU,
+                     script=[['announce', 0], ['announce', 0]]))
+    for b in ('disk', 'redis'):
+        cfgs.append(dict(backend=b, backoff='r0x2', n=3, messages=1, d=0, dd=3, menu=dict(MENU, reversed_maps=True)))
     # ... and by the cloud message queue
     cfgs.append(dict(backend='cloud', cloud_mq=True, backoff='r10', n=2, messages=1, d=2, dd=2, menu=MENU))
     cfgs.append(dict(backend='cloud', cloud_mq=True, backoff='r10', n=2, messages=0, prestored=1, d=2, dd=2, menu=MENU))
@@ -81,6 +85,7 @@ def signature(cfg, qw, kind):
             marks[e[3]] = marks.get(e[3], 0) + 1
     multi = max(marks.values() or [0]) >= 2
     return {'kind': kind, 'backend': cfg['backend'], 'exception': ','.join(errs) or 'none',
+            'index_model': 'differs' if qw.index_model_differs else 'matches',
             'marking_rounds': 'multi' if multi else 'single', 'announce': script,
             'mq': bool(cfg.get('cloud_mq'))}
 
